@@ -78,7 +78,22 @@ def run(tier, seed):
             c = observe(t)
             c["id"] = len(cases)
             cases.append(c)
-    j = judge("Judge_C17", cases)
+    # calls recorded while the repository's own tests run (tracing pytest plugin): the same judge validates them
+    from harness import shim
+    from harness.repo_tests import record
+    recs, rc, tail = record(["tests/inference/test_paf_grouping.py"], shim.REPO)
+    n_repo = 0
+    for rec in recs:
+        if rec["fn"] != "toposort_edges":
+            continue
+        es = [tuple(e) for e in rec["edges"]]
+        nodes = {x for e in es for x in e}
+        if len(es) != len(nodes) - 1 or len({d for _, d in es}) != len(es) or not es:
+            continue  # not a tree: outside the property
+        cases.append(dict(id=len(cases), edges=rec["edges"], ord=rec["ord"], ord2=rec["ord2"], raised=rec["raised"], from_repo_tests=True))
+        n_repo += 1
+    res.coverage["calls_recorded_from_repo_tests"] = n_repo
+    j = judge("Judge_C17", [{k: v for k, v in c.items() if k != "from_repo_tests"} for c in cases])
     res.add_judge("Judge_C17", j, "trees 2..%d exhaustive (%d), %d..%d nodes sampled" % (max_full, n_exh, max_full + 1, max_full + 2))
     byid = {c["id"]: c for c in cases}
     for cid, clause in j["rejected"]:
